@@ -59,7 +59,7 @@ MANIFEST = {
                   'every request granted exactly once (also with inline executors = single thread), mutex free and frames released at quiescence. Kernel level: for the lock-word protocol of yaclib::Mutex (MutexImpl, FIFO on and off) the solver shows for every well-nested two-unit schedule of two lockers, or a locker and a TryLock prober '
                   '(preemption at any atomic operation, covering bound proved, one spurious weak-CAS failure): never two holders, TryLock succeeds only when free, every Lock request is granted exactly '
                   'once (a parked coroutine is always woken: no lost wake-up in the enqueue-vs-release window), the mutex is free at quiescence.',
-    'level_note': '2 racing (+1 sequenced) coroutines, 1 round, well-nested schedules; FIFO grant order not asserted. Trusted: clang -O1 IR, ir2c, rt, cbmc.',
+    'level_note': '2 racing (+1 sequenced) coroutines, 1 round, well-nested schedules; FIFO grant order not asserted. Trusted: clang -O1 IR, ir2c, rt, cbmc. The C04 happens-before ghost runs inside the coroutine-level cubes: what one critical section wrote must be visible (ordered) in the next.',
     'technique': 'bounded model checking of the real code with solver-decided preemption cubes',
     'design_ref': 'DESIGN.md 4 C14',
 }
